@@ -1011,6 +1011,22 @@ def run(args):
 
     def repeats(args):
         return len(set(args)) < len(args)
+    joint_stats = {"nobody_acts": 0, "one_member_acts": 0, "several_members_act": 0, "refused": 0,
+                   "allowed_inapplicable": 0, "plans_with_an_idle_first_step": 0, "temporary_operators_kept": 0,
+                   "temporary_states_kept": 0}
+
+    def count_joint(op, r):
+        groups = op["steps"] if op["k"] == "ma_plan" else [op["members"]]
+        for g, apps in zip(groups, r.get("apps", []) if op["k"] == "ma_plan" else [r.get("apps", [])]):
+            n_act = sum(1 for m_ in g if not m_.get("nop"))
+            joint_stats["nobody_acts" if n_act == 0 else "one_member_acts" if n_act == 1 else "several_members_act"] += 1
+            if any(a is not True for a in apps) and (op.get("allow") or op.get("allow_exporter")):
+                joint_stats["allowed_inapplicable"] += 1
+        joint_stats["refused"] += 1 if r.get("raised") == "ValueError" else 0
+        joint_stats["temporary_operators_kept"] += r.get("n_ops", 0)
+        joint_stats["temporary_states_kept"] += r.get("n_states", 0)
+        if op["k"] == "ma_plan" and groups and all(m_.get("nop") for m_ in groups[0]):
+            joint_stats["plans_with_an_idle_first_step"] += 1
     for job, res in zip(jobs, results):
         if "steps" not in res:
             p = write_replay(PROP, "driver_failed_%s" % job["id"], {"kind": "correspondence", "why": "history driver failed", "input": {"job": public(job)}, "result": res})
@@ -1028,6 +1044,8 @@ def run(args):
                 rep_calls += 1 if repeats(s["op"].get("args", [])) else 0
             if s["op"]["k"] == "plan":
                 rep_calls += sum(1 for c in s["op"]["calls"] if repeats(c["args"]))
+            if s["op"]["k"] in ("joint", "ma_triplet", "ma_plan"):
+                count_joint(s["op"], s["res"])
             if s["op"]["k"] == "parse_traj":
                 traj_ok, traj_raised = traj_ok + ("raised" not in s["res"]), traj_raised + ("raised" in s["res"])
         rep_init += 1 if any(re.search(r"\(= \((\w+) (\w+) \2\)", p) for p in job["probs"]) else 0
@@ -1035,7 +1053,7 @@ def run(args):
         indep_rep += 1 if job.get("indep") and any(repeats(c["args"]) for c in job["indep"]["calls"]) else 0
         nsteps[len(executed)] = nsteps.get(len(executed), 0) + 1
         has_ref = any(s["res"].get("refused") for s in executed)
-        n_state_ops = sum(1 for s in executed if s["op"]["k"] in ("apply", "triplet", "combine", "copy"))
+        n_state_ops = sum(1 for s in executed if s["op"]["k"] in ("apply", "triplet", "combine", "copy", "joint", "ma_triplet", "ma_plan"))
         cases.append({"lit": lit,
                       "input": {"job": public(job), "resolved": [s.get("op") for s in res["steps"]],
                                 "observed": {"changed": [[i, s["changed"]] for i, s in enumerate(res["steps"]) if s.get("changed")],
@@ -1091,6 +1109,7 @@ def run(args):
                                  "calls_raised": raised, "steps_refused": refused,
                                  "operator_calls_repeating_an_object": rep_calls,
                                  "histories_with_an_initial_fluent_repeating_an_object": rep_init,
+                                 "joint_actions": joint_stats,
                                  "trajectories_read_back": traj_ok, "trajectory_read_back_raised": traj_raised,
                                  "independent_worlds": sum(1 for j in jobs if j.get("indep")),
                                  "independent_world_states_rechecked_after_every_call": indep_states,
@@ -1113,7 +1132,11 @@ def run(args):
     cov["rule"] = ("histories of 3-12 API calls (parse domain/problem, Domain(), combine agent domains, Domain.shallow_copy, Operator, ground, "
                    "is_applicable, apply x 4 flag combinations, re-apply to earlier/later states, State.copy, State ==, serialize, str of "
                    "operator/action/domain/problem, domain and problem export, create_single_triplet, parse_plan of 2-4 calls, trajectory export, "
-                   "trajectory written to a file and read back by TrajectoryParser with / without the problem) "
+                   "trajectory written to a file and read back by TrajectoryParser with / without the problem, multi_agent apply_actions on joint "
+                   "actions of 0-3 members (empty, only nops, one acting member among nops, several acting members; both allow values; refusals; "
+                   "with / without problem objects), create_multi_agent_triplet, MultiAgentTrajectoryExporter.parse_plan of 2-4 joint steps "
+                   "(35 % with an idle first step) and its export - the Operators and State copies these calls create and drop are kept alive "
+                   "as handles, the initial State parse_plan builds is digested at creation and after the call) "
                    "over generated typed/untyped domains with numeric fluents, conditional effects, forall effects and forall preconditions, a strict "
                    "subtype (c - a), a binary predicate e and a binary function k over ONE type - so initial facts / fluents and action calls "
                    "repeat an object: (= (k a1 a1) 0), (act0 a1 a1) - and problems with numeric goals; plus one long history per shipped "
